@@ -52,7 +52,7 @@ def _boundary(rng):
 def generate(seed: int, run: int, tier: str) -> dict:
     rng = core.rng_for(seed, PROP, run, "gen")
     n = rng.choice([5, 8, 12, 20, 30, 40]) if tier == "quick" else rng.choice([5, 8, 12, 20, 30, 45, 60])
-    w_create = {"symbol": 6, "indexed": 2, "function": 3, "quantity": 3, "coordsys": 1, "transform": 1, "vecsymbol": 1, "vecfunction": 1,
+    w_create = {"symbol": 6, "indexed": 2, "function": 3, "quantity": 3, "quantity_of": 1, "coordsys": 1, "transform": 1, "rotate": 1, "vecsymbol": 1, "vecfunction": 1,
                 "clone_symbol": 5, "clone_function": 3, "clone_indexed": 2}
     # swarm: drop some kinds entirely, emphasise others
     for k in list(w_create):
@@ -101,6 +101,10 @@ def generate(seed: int, run: int, tier: str) -> dict:
                     op["arg_refs"] = [rng.randrange(100) for _ in range(op["nargs"])]
         elif kind == "quantity":
             op.update(value=rng.choice([1, 2, 3, 5, -4, 0.5, 1000]), unit=rng.choice(UNITS), name=rng.choice(name_pool), latex=rng.choice(LATEX), prefix=rng.choice([None, None, "kilo", "milli"]))
+        elif kind == "quantity_of":
+            op.update(src=rng.randrange(100), name=rng.choice(name_pool), latex=rng.choice(LATEX))
+        elif kind == "rotate":
+            op.update(src=rng.randrange(100), angle=rng.choice([1, 1, 2]), axis=rng.choice([0, 0, 1, 2]))
         elif kind == "coordsys":
             op["type"] = rng.choice([0, 1, 2])
         elif kind == "transform":
@@ -622,6 +626,23 @@ def _apply(op: dict, model: Model, state: dict):  # pylint: disable=too-many-bra
         o = sx.Quantity(expr, display_symbol=name, display_latex=latex)
         dim = {"meter": units.length, "second": units.time, "kilogram": units.mass, "kelvin": units.temperature}[op["unit"]]
         model.add("quantity", o, name, latex if latex else None, dim, None, scale=complex(scale), defaulted=not name, extra={"default_display": lambda o: str(o.name), "value": scale})
+    elif k == "quantity_of":
+        qs = [r for r in model.recs if r["kind"] == "quantity"]
+        if not qs:
+            return "skipped"
+        src = qs[op["src"] % len(qs)]
+        o = sx.Quantity(src["obj"], display_symbol=name, display_latex=latex)  # a new quantity with the same value
+        model.add("quantity", o, name, latex if latex else None, src["dim"], None, scale=src["scale"], defaulted=not name, extra={"default_display": lambda o: str(o.name), "value": src["extra"]["value"]})
+    elif k == "rotate":
+        from symplyphysics.core.coordinate_systems.coordinate_systems import coordinates_rotate  # pylint: disable=import-outside-toplevel
+        css = [r for r in model.recs if r["kind"] == "coordsys" and r["obj"].coord_system_type == sx.CoordinateSystem.System.CARTESIAN]
+        if not css or not global_parameters.evaluate:
+            return "skipped"  # sympy.vector cannot build a rotation matrix with evaluation off
+        src = css[op["src"] % len(css)]
+        cs = src["obj"].coord_system
+        axis = [cs.i, cs.j, cs.k][op["axis"]]
+        o = coordinates_rotate(src["obj"], sp.pi / (1 + op["angle"]), axis)
+        model.add("coordsys", o, None, None, None)
     elif k == "coordsys":
         t = list(sx.CoordinateSystem.System)[op["type"]]
         o = sx.CoordinateSystem(t)
